@@ -381,6 +381,58 @@ def mi_harness(e):
     return scenario
 
 
+_NT: dict[str, Any] = {}
+
+
+def newtype_harness(e):
+    """Fields annotated with a NewType (also a NewType of a NewType) of a node class are child
+    fields, of a scalar properties - like the wrapped types themselves."""
+    import sys
+    import types
+
+    reset_all()
+    if not _NT:
+        mod = types.ModuleType("vgen_newtype")
+        sys.modules["vgen_newtype"] = mod
+        src = (
+            "from dataclasses import dataclass, field\nfrom typing import NewType\nfrom models.zoo import VBase, VLeaf\n\n"
+            "LeafRef = NewType('LeafRef', VLeaf)\nResolvedRef = NewType('ResolvedRef', LeafRef)\nDeepRef = NewType('DeepRef', ResolvedRef)\n"
+            "Count = NewType('Count', int)\nBigCount = NewType('BigCount', Count)\n\n"
+            "@dataclass(frozen=True)\nclass VNewTypes(VBase):\n    one: LeafRef\n    two: ResolvedRef\n    three: DeepRef\n    n: Count = Count(0)\n    m: BigCount = BigCount(Count(1))\n    plain: VLeaf | None = None\n"
+        )
+        exec(compile(src, "vgen_newtype", "exec", dont_inherit=True), mod.__dict__)
+        _NT["cls"] = mod.__dict__["VNewTypes"]
+    cls = _NT["cls"]
+    a, b, c, d = VLeaf(v=1), VLeaf(v=2), VLeaf(v=3), VLeaf(v=4)
+    with_plain = e.flag("with_optional_child")
+    node = cls(one=a, two=b, three=c, n=5, m=6, plain=d if with_plain else None)
+    sort_keys = e.bool("sort_keys")
+    sk = True if sort_keys else False
+    want_kids = [("one", a), ("two", b), ("three", c)] + ([("plain", d)] if with_plain else [])
+    if sk:
+        want_kids = sorted(want_kids, key=lambda x: x[0])
+    got_wf = [(f.name, id(n_)) for n_, f, _i in node.get_child_nodes_with_field(sort_keys=sort_keys)]
+    got_nodes = [id(n_) for n_ in node.get_child_nodes(sort_keys=sort_keys)]
+    scenario = {"class": "VNewTypes(one: NewType(VLeaf), two: NewType(NewType(VLeaf)), three: NewType^3, n: NewType(int), m: NewType(NewType(int)), plain: VLeaf | None)", "sort_keys": sk, "with_optional_child": bool(with_plain)}
+    if got_wf != [(k, id(v)) for k, v in want_kids] or got_nodes != [id(v) for _k, v in want_kids]:
+        scenario.update(got=[k for k, _ in got_wf], expected=[k for k, _ in want_kids])
+        e.fail("child-accessor-mismatch:newtype", scenario=scenario)
+    if [f.name for f in cls.get_child_fields()] != ["one", "two", "three", "plain"]:
+        scenario.update(got=[f.name for f in cls.get_child_fields()])
+        e.fail("get-child-fields-mismatch:newtype", scenario=scenario)
+    props = [(f.name, v) for v, f in node.get_properties(sort_keys=sort_keys)]
+    want_props = [("n", 5), ("m", 6)]
+    if sk:
+        want_props = sorted(want_props)
+    if props != want_props or node.to_properties_dict() != {"n": 5, "m": 6}:
+        scenario.update(got=[k for k, _ in props], expected=[k for k, _ in want_props])
+        e.fail("get-properties-mismatch:newtype", scenario=scenario)
+    if [id(x) for x in node.children] != [id(v) for _k, v in ([("one", a), ("two", b), ("three", c)] + ([("plain", d)] if with_plain else []))]:
+        e.fail("children-mismatch:newtype", scenario=scenario)
+    e.distinct((sk, bool(with_plain)))
+    return scenario
+
+
 def _decided(e, b) -> bool:
     if isinstance(b, bool):
         return True
@@ -401,6 +453,7 @@ def spec(tier: str, seed: int) -> Spec:
     hh = hostile_hierarchies()
     for k in range(0, len(hh), 15):
         fams.append(Family(f"field-names[{k}:{k + 15}]", make_harness(hh[k : k + 15], fresh=False), variables="as above; selector: a field named like an identifier the generated accessor source may use itself (o, i, sort_keys, skip_id, cls ...)"))
+    fams.append(Family("newtype-annotations", newtype_harness, variables="lazy: sort_keys; selector: optional child"))
     fams.append(Family("multiple-inheritance", mi_harness, variables="lazy flags; selectors: classes used first, queried class, part, variant (fresh classes with multiple inheritance, empty bodies, override-only subclasses)"))
     return Spec(
         families=fams,
